@@ -69,6 +69,8 @@ class State:
         return self.heap[attr]
 
     def rd(self, attr, ref):
+        if not isinstance(ref, int):
+            self.terms.append(("ref", ref))
         return z3.Select(self.arr(attr), ref)
 
     def wr(self, attr, ref, val):
